@@ -66,7 +66,7 @@ def run_part(chk):
             subs = rng.sample(subs, 700)
         for s in subs:
             cases.append(("value", name, s))
-    for i in range(300 if quick else 4000):
+    for i in range(300 if quick else 1500):
         name, data = rng.choice(corp)
         d = data
         for _ in range(rng.choice([1, 1, 2, 3])):
@@ -76,7 +76,7 @@ def run_part(chk):
     impl = vlib.run_impl("jacoco", jcases, chk.pid, parallel=8)
     outcome = [jg.results_from_impl(r["res"]) if "res" in r else ("died", r) for r in impl]
     # second pass with the event dump: every case that did not end in ok/err, plus a random sample
-    k = 350 if quick else 3000
+    k = 350 if quick else 1200
     special = [i for i, o in enumerate(outcome) if o[0] not in ("ok", "err", "died")]
     idx = sorted(set(special + rng.sample(range(len(cases)), min(k, len(cases)))))
     ecases = [{"xml": jcases[i]["xml"]} for i in idx]
